@@ -107,8 +107,11 @@ def cmd_run(i, checks):
             lines = [l for l in out.splitlines() if l.startswith(('VIOLATION', 'KNOWN', 'ENGINE')) or 'rc=' in l]
             viol = [l for l in out.splitlines() if l.startswith('VIOLATION')]
             detail = [l for l in out.splitlines() if l.startswith('  ')][:3]
-            m['checks'][f'{c}:{tier}'] = {'exit': rc, 'violations': len(viol), 'first': (detail[0].strip()[:300] if detail else ''),
-                                          's': round(time.time() - t)}
+            rec = {'exit': rc, 'violations': len(viol), 'first': (detail[0].strip()[:300] if detail else ''),
+                   's': round(time.time() - t)}
+            m['checks'][f'{c}:{tier}'] = rec
+            _, head = sh('git -C /verif log --format=%h -1')
+            m.setdefault('history', []).append(dict(rec, check=f'{c}:{tier}', verif_commit=head.strip(), at=time.strftime('%H:%M')))
             print(f'{i} {c}:{tier} exit={rc} violations={len(viol)} {round(time.time() - t)}s')
             for l in (viol[:2] + detail[:2] + [x for x in lines if x.startswith('ENGINE')][:3]):
                 print('    ' + l[:400])
@@ -119,8 +122,33 @@ def cmd_run(i, checks):
     save_meta(i, m)
 
 
+def cmd_table():
+    import glob
+    rows = []
+    for mp in sorted(glob.glob(os.path.join(SEEDED, '*', 'meta.json'))):
+        m = json.load(open(mp))
+        hist = m.get('history', [])
+        first = {}
+        last = {}
+        for h in hist:
+            first.setdefault(h['check'], h)
+            last[h['check']] = h
+        caught = sorted(c.split(':')[0] for c, h in last.items() if h['exit'] == 1)
+        missed_then = sorted(c.split(':')[0] for c, h in first.items() if h['exit'] != 1 and last[c]['exit'] == 1)
+        still = sorted(c.split(':')[0] for c, h in last.items() if h['exit'] != 1)
+        rows.append((m['id'], m['property'], m.get('needs', '')[:150], ', '.join(caught) or '-', ', '.join(missed_then) or '-',
+                     ', '.join(f'{c} (exit {last[c + ":quick"]["exit"]})' for c in still) or '-'))
+    print('| change | seeded for | what it needs to manifest | caught by (quick tier) | missed at first, caught after strengthening | not caught by |')
+    print('|---|---|---|---|---|---|')
+    for r in rows:
+        print('| ' + ' | '.join(r) + ' |')
+
+
 if __name__ == '__main__':
     a = sys.argv[1:]
+    if a[0] == 'table':
+        cmd_table()
+        sys.exit(0)
     if a[0] == 'import':
         cmd_import(a[1], a[2], a[3])
     elif a[0] == 'verify':
